@@ -26,7 +26,10 @@ Record st := {
   inq    : list item;          (* emitted by the peer, not yet consumed by the reader *)
   nsent  : nat;                (* number of frames the peer has emitted (next fid) *)
   senth  : nat -> N;           (* ghost: hop id of the frame with that fid *)
-  wired  : list N              (* ghost: hop ids of requests of which at least one octet is on the wire *)
+  wired  : list N;             (* ghost: hop ids of requests of which at least one octet is on the wire *)
+  gone   : nat -> bool         (* the Receiver half of waiter i no longer exists: the caller dropped the
+                                  ResponseFuture (e.g. a timeout around it), or send_message itself failed
+                                  in its write after registering and returned Err *)
 }.
 
 Definition upd {A} (f : nat -> A) (i : nat) (x : A) : nat -> A :=
@@ -47,12 +50,14 @@ Inductive ev :=
 | Peer (h : N)       (* the peer emits a complete answer frame with hop id h *)
 | PeerBad            (* the peer closes / resets / emits undecodable octets *)
 | ReaderStep         (* the reader task consumes the head of inq *)
+| Abandon (i : nat)  (* the Receiver of waiter i is dropped (future dropped by the caller, or never handed
+                        out because the write in send_message failed); the Sender stays in the table *)
 .
 
 (* D10: close and drain *)
 Definition stop (s : st) : st :=
   {| table := []; closed := true; nw := nw s; ws := drop_all (table s) (ws s); whop := whop s;
-     inq := inq s; nsent := nsent s; senth := senth s; wired := wired s |}.
+     inq := inq s; nsent := nsent s; senth := senth s; wired := wired s; gone := gone s |}.
 
 Definition step (s : st) (e : ev) : st :=
   match e with
@@ -60,44 +65,55 @@ Definition step (s : st) (e : ev) : st :=
       if closed s then
         {| table := table s; closed := true; nw := S (nw s); ws := upd (ws s) (nw s) WDropped;
            whop := upd (whop s) (nw s) h; inq := inq s; nsent := nsent s; senth := senth s;
-           wired := wired s |}
+           wired := wired s; gone := gone s |}
       else
         let w' := match lookup (table s) h with Some i => upd (ws s) i WDropped | None => ws s end in
         {| table := (h, nw s) :: remove (table s) h; closed := false; nw := S (nw s);
            ws := upd w' (nw s) WPending; whop := upd (whop s) (nw s) h;
-           inq := inq s; nsent := nsent s; senth := senth s; wired := wired s |}
+           inq := inq s; nsent := nsent s; senth := senth s; wired := wired s; gone := gone s |}
   | WireOut h =>
       {| table := table s; closed := closed s; nw := nw s; ws := ws s; whop := whop s;
-         inq := inq s; nsent := nsent s; senth := senth s; wired := h :: wired s |}
+         inq := inq s; nsent := nsent s; senth := senth s; wired := h :: wired s; gone := gone s |}
   | Peer h =>
       {| table := table s; closed := closed s; nw := nw s; ws := ws s; whop := whop s;
          inq := inq s ++ [IFrame {| hop := h; fid := nsent s |}]; nsent := S (nsent s);
-         senth := upd (senth s) (nsent s) h; wired := wired s |}
+         senth := upd (senth s) (nsent s) h; wired := wired s; gone := gone s |}
   | PeerBad =>
       {| table := table s; closed := closed s; nw := nw s; ws := ws s; whop := whop s;
-         inq := inq s ++ [IBad]; nsent := nsent s; senth := senth s; wired := wired s |}
+         inq := inq s ++ [IBad]; nsent := nsent s; senth := senth s; wired := wired s; gone := gone s |}
+  | Abandon i =>
+      {| table := table s; closed := closed s; nw := nw s; ws := ws s; whop := whop s;
+         inq := inq s; nsent := nsent s; senth := senth s; wired := wired s; gone := upd (gone s) i true |}
   | ReaderStep =>
       if closed s then s else
       match inq s with
       | [] => s
       | IBad :: q =>
           stop {| table := table s; closed := false; nw := nw s; ws := ws s; whop := whop s;
-                  inq := q; nsent := nsent s; senth := senth s; wired := wired s |}
+                  inq := q; nsent := nsent s; senth := senth s; wired := wired s; gone := gone s |}
       | IFrame f :: q =>
           match lookup (table s) (hop f) with
-          | Some i => {| table := remove (table s) (hop f); closed := false; nw := nw s;
-                         ws := upd (ws s) i (WGot f); whop := whop s; inq := q;
-                         nsent := nsent s; senth := senth s; wired := wired s |}
+          | Some i =>
+              if gone s i then
+                (* process_decoded_msg: the entry is removed, sender.send(res) fails because the Receiver
+                   is gone ("Failed to send response"), the error breaks the reader loop *)
+                stop {| table := remove (table s) (hop f); closed := false; nw := nw s;
+                        ws := upd (ws s) i WDropped; whop := whop s; inq := q;
+                        nsent := nsent s; senth := senth s; wired := wired s; gone := gone s |}
+              else
+                {| table := remove (table s) (hop f); closed := false; nw := nw s;
+                   ws := upd (ws s) i (WGot f); whop := whop s; inq := q;
+                   nsent := nsent s; senth := senth s; wired := wired s; gone := gone s |}
           | None => (* "No request found for hop_by_hop_id": the reader stops *)
               stop {| table := table s; closed := false; nw := nw s; ws := ws s; whop := whop s;
-                      inq := q; nsent := nsent s; senth := senth s; wired := wired s |}
+                      inq := q; nsent := nsent s; senth := senth s; wired := wired s; gone := gone s |}
           end
       end
   end.
 
 Definition init : st :=
   {| table := []; closed := false; nw := 0; ws := fun _ => WDropped; whop := fun _ => 0%N;
-     inq := []; nsent := 0; senth := fun _ => 0%N; wired := [] |}.
+     inq := []; nsent := 0; senth := fun _ => 0%N; wired := []; gone := fun _ => false |}.
 Definition run (es : list ev) : st := fold_left step es init.
 
 (* observing a state *)
@@ -107,7 +123,7 @@ Definition outcomes (s : st) : list wst := map (ws s) (seq 0 (nw s)).
 (* ---- today's code (before D10): the reader just returns; `closed` is only a ghost flag ---- *)
 Definition stop_legacy (s : st) : st :=
   {| table := table s; closed := true; nw := nw s; ws := ws s; whop := whop s;
-     inq := inq s; nsent := nsent s; senth := senth s; wired := wired s |}.
+     inq := inq s; nsent := nsent s; senth := senth s; wired := wired s; gone := gone s |}.
 
 Definition step_legacy (s : st) (e : ev) : st :=
   match e with
@@ -115,22 +131,28 @@ Definition step_legacy (s : st) (e : ev) : st :=
       let w' := match lookup (table s) h with Some i => upd (ws s) i WDropped | None => ws s end in
       {| table := (h, nw s) :: remove (table s) h; closed := closed s; nw := S (nw s);
          ws := upd w' (nw s) WPending; whop := upd (whop s) (nw s) h;
-         inq := inq s; nsent := nsent s; senth := senth s; wired := wired s |}
+         inq := inq s; nsent := nsent s; senth := senth s; wired := wired s; gone := gone s |}
   | ReaderStep =>
       if closed s then s else
       match inq s with
       | [] => s
       | IBad :: q =>
           stop_legacy {| table := table s; closed := false; nw := nw s; ws := ws s; whop := whop s;
-                         inq := q; nsent := nsent s; senth := senth s; wired := wired s |}
+                         inq := q; nsent := nsent s; senth := senth s; wired := wired s; gone := gone s |}
       | IFrame f :: q =>
           match lookup (table s) (hop f) with
-          | Some i => {| table := remove (table s) (hop f); closed := false; nw := nw s;
-                         ws := upd (ws s) i (WGot f); whop := whop s; inq := q;
-                         nsent := nsent s; senth := senth s; wired := wired s |}
+          | Some i =>
+              if gone s i then
+                stop_legacy {| table := remove (table s) (hop f); closed := false; nw := nw s;
+                               ws := upd (ws s) i WDropped; whop := whop s; inq := q;
+                               nsent := nsent s; senth := senth s; wired := wired s; gone := gone s |}
+              else
+                {| table := remove (table s) (hop f); closed := false; nw := nw s;
+                   ws := upd (ws s) i (WGot f); whop := whop s; inq := q;
+                   nsent := nsent s; senth := senth s; wired := wired s; gone := gone s |}
           | None =>
               stop_legacy {| table := table s; closed := false; nw := nw s; ws := ws s; whop := whop s;
-                             inq := q; nsent := nsent s; senth := senth s; wired := wired s |}
+                             inq := q; nsent := nsent s; senth := senth s; wired := wired s; gone := gone s |}
           end
       end
   | _ => step s e
@@ -142,7 +164,8 @@ Definition run_legacy (es : list ev) : st := fold_left step_legacy es init.
    WireOut h  : program order of the correct code: the request was registered before it is written
    Peer h     : causal peer (h is on the wire) that answers each id at most once
    PeerBad    : never (the connection is not cut)
-   ReaderStep : always *)
+   ReaderStep : always
+   Abandon i  : only a future that has already completed (consumed and dropped by the caller) *)
 Definition ok_evb (wire_after_register : bool) (s : st) (e : ev) : bool :=
   match e with
   | Register h => forallb (fun i => negb (N.eqb (whop s i) h)) (seq 0 (nw s))
@@ -151,6 +174,7 @@ Definition ok_evb (wire_after_register : bool) (s : st) (e : ev) : bool :=
               && forallb (fun a => negb (N.eqb (senth s a) h)) (seq 0 (nsent s))
   | PeerBad => false
   | ReaderStep => true
+  | Abandon i => Nat.ltb i (nw s) && match ws s i with WPending => false | _ => true end
   end.
 Fixpoint all_okb (wire_after_register : bool) (es : list ev) (s : st) : bool :=
   match es with
